@@ -2,19 +2,20 @@ import Dashu.Driver.Loop
 import Dashu.Model.Int.Bits
 import Dashu.Model.Int.Cmp
 /-
-  Driver of group `bits` (C09, C05).  For every case it runs the mirrored model (the code AS IS,
-  `fx = false`) and, beside it, the specification.  The line printed is what the property requires
-  (the specification value).  If model and specification differ
-    * on an input inside a recorded defect class (`toDefect`, `shrDefect`, `ones(2W)`) nothing is
-      added: the real code is expected to differ there too and `known_findings.jsonl` absorbs it;
-    * anywhere else ` !model-spec-mismatch` is appended (a defect of *our* model — cannot happen
-      where the refinement theorem is proved).
+  Driver of group `bits` (C09, C05).  For every case it runs the mirrored model of the code as it
+  is (`codeFx = true`: after the fix commits 754b193 trailing_ones_large, 94ebcdb
+  are_dword_low_bits_nonzero, 283f2ad Repr::ones) and, beside it, the specification.  The line
+  printed is the model's result; if the specification differs, ` !model-spec-mismatch` is appended
+  (a defect of *our* model — cannot happen where the refinement theorem is proved).
 -/
 namespace Dashu.Driver.Bits
 open Dashu.IO Dashu.Model Dashu.Driver
 
-def chk (model spec : String) (inDefect : Bool := false) : String :=
-  if model = spec ∨ inDefect then spec else spec ++ " !model-spec-mismatch model=" ++ model.replace " " "_"
+/-- which variant of the three once-defective functions the real code currently has -/
+def codeFx : Bool := true
+
+def chk (model spec : String) : String :=
+  if model = spec then model else model ++ " !model-spec-mismatch spec=" ++ spec.replace " " "_"
 
 def sreprToStr (W : Nat) (r : SRepr) : String :=
   let v := r.mag.value W
@@ -91,10 +92,10 @@ def dispatchBits : Dispatch := fun W op args =>
   | ["i", "shr"], [a, n] => do
     let x ← parseInt a; let k ← parseDecNat n
     let sx := sOfInt W x
-    let m0 := "ok " ++ intToHex (ibigShr W false sx k false)
-    let m1 := "ok " ++ intToHex (ibigShr W false sx k true)
+    let m0 := "ok " ++ intToHex (ibigShr W codeFx sx k false)
+    let m1 := "ok " ++ intToHex (ibigShr W codeFx sx k true)
     let m := if m0 = m1 then m0 else m0 ++ " !model-forms-disagree"
-    pure (chk m ("ok " ++ intToHex (specShr x k)) (shrDefect W sx k))
+    pure (chk m ("ok " ++ intToHex (specShr x k)))
   -- ------------------------------------------------------------ bit tests
   | ["u", "bit"], [a, n] => do
     let x ← parseNat a; let k ← parseDecNat n
@@ -110,10 +111,10 @@ def dispatchBits : Dispatch := fun W op args =>
     pure (chk ("ok " ++ decStr ((sOfInt W x).mag.bitLen W)) ("ok " ++ decStr (bitLenNat x.natAbs)))
   | ["u", "setbit"], [a, n] => do
     let x ← parseNat a; let k ← parseDecNat n
-    pure (chk (outU W ((ofNat W x).setBit W k)) ("ok " ++ natToHex (if specBit x k then x else x + 2 ^ k)))
+    pure (chk (outU W ((ofNat W x).setBit W k)) ("ok " ++ natToHex (x ||| 2 ^ k)))
   | ["u", "clearbit"], [a, n] => do
     let x ← parseNat a; let k ← parseDecNat n
-    pure (chk (outU W ((ofNat W x).clearBit W k)) ("ok " ++ natToHex (if specBit x k then x - 2 ^ k else x)))
+    pure (chk (outU W ((ofNat W x).clearBit W k)) ("ok " ++ natToHex (natAndNot x (2 ^ k))))
   | ["u", "tz"], [a] => do
     let x ← parseNat a
     pure (chk (exc optStr ((ofNat W x).trailingZeros W)) (specTzStr x))
@@ -123,11 +124,11 @@ def dispatchBits : Dispatch := fun W op args =>
   | ["u", "to"], [a] => do
     let x ← parseNat a
     let r := ofNat W x
-    pure (chk (exc decStr (r.trailingOnes W false)) (specToStr x) (toDefect W r))
+    pure (chk (exc decStr (r.trailingOnes W codeFx)) (specToStr x))
   | ["i", "to"], [a] => do
     let x ← parseInt a
     let sx := sOfInt W x
-    pure (chk (exc optStr (ibigTrailingOnes W false sx)) (specToStr x) (!sx.neg && toDefect W sx.mag))
+    pure (chk (exc optStr (ibigTrailingOnes W codeFx sx)) (specToStr x))
   | ["u", "countones"], [a] => do
     let x ← parseNat a
     pure (chk ("ok " ++ decStr ((ofNat W x).countOnes W)) ("ok " ++ decStr (popNat x)))
@@ -152,8 +153,7 @@ def dispatchBits : Dispatch := fun W op args =>
     pure (chk (outU W ((ofNat W x).nextPow2 W)) ("ok " ++ natToHex (specNextPow2 x)))
   | ["u", "ones"], [n] => do
     let k ← parseDecNat n
-    -- C09 is about the value; the canonical form of `ones(2W)` is C05's `c.ones`
-    pure (chk ("ok " ++ natToHex ((reprOnes W false k).value W)) ("ok " ++ natToHex (2 ^ k - 1)))
+    pure (chk (outU W (reprOnes W codeFx k)) ("ok " ++ natToHex (2 ^ k - 1)))
   -- ------------------------------------------------------------ bitwise binary
   | ["u", o], [a, b] => do
     let (f, s) ← uop o
